@@ -166,6 +166,9 @@ def main(run):
     t6, _ = explore_replay(run, "OrderErrAlphabet", "LayoutIncFiles", 4, 1, [512], {"harness_link": True}, lambda r: True,
                            label="AsmCore order, unused definitions whose value is an error or not (all programs of <= 4 statements)", timeout=3000)
     tasks += t6
+    t7, _ = explore_replay(run, "LinkAliasAlphabet", "LayoutIncFiles", 4, 1, [512], {"harness_link": False}, nontrivial,
+                           label="AsmCore order, chains of aliases used by the program's own .link, defined before or after the labels (all programs of <= 4 statements)", timeout=3000)
+    tasks += t7
     recs2, inc2 = explore(run, "OrderAlphabet", "LayoutIncFiles", 7, 1, [512], simulate=(6000 if thorough else 700), depth=8,
                           seed=run.seed + 13, label="AsmCore order simulation (<= 7 stmts)")
     tasks += replay_all(run, recs2, inc2, {"harness_link": True}, nontrivial)
